@@ -63,14 +63,20 @@ DID_SETS = [
     {0x1234: ('B', 3), 0xABCD: ('raw', 8)},
     {0x1234: ('le', 2), 0x5678: ('be', 4), 0x0102: ('B', 1)},
     {0x1234: ('be', 2), 0x5678: ('B', 4)},
+    {0x1234: ('natH', 2), 0x5678: ('natI', 4), 0xABCD: ('natHH', 4)},
 ]
 DEFAULTS = [None, None, ('B', 2), ('raw', 2)]
+
+
+NATIVE = {'natH': 'H', 'natI': 'I', 'natHH': 'HH'}      # pack strings without a byte-order character
 
 
 def codec_obj(kind, n):
     from .. import enclib
     if kind in ('le', 'be'):
         return ('<' if kind == 'le' else '>') + {2: 'H', 4: 'L'}[n]        # one integer, little / big endian
+    if kind in NATIVE:
+        return NATIVE[kind]
     return enclib.codec_obj(kind, n)
 
 
@@ -79,6 +85,10 @@ def py_value(kind, v):
     from .. import enclib
     if kind in ('le', 'be'):
         return int.from_bytes(v, 'little' if kind == 'le' else 'big')
+    if kind in NATIVE:
+        import struct
+        t = struct.unpack(NATIVE[kind], v)
+        return t if len(t) > 1 else t[0]
     return enclib.py_value(kind, v)
 
 
@@ -86,6 +96,12 @@ def raw_of(kind, val):
     """the bytes a decoded value stands for under the codec that decoded it"""
     if kind is not None and kind[0] in ('le', 'be') and isinstance(val, tuple) and len(val) == 1:
         return val[0].to_bytes(kind[1], 'little' if kind[0] == 'le' else 'big')
+    if kind is not None and kind[0] in NATIVE and isinstance(val, tuple):
+        import struct
+        try:
+            return struct.pack(NATIVE[kind[0]], *val)
+        except Exception:  # noqa
+            return raw(val)
     return raw(val)
 
 
@@ -159,10 +175,16 @@ def run_history(s, ctx, hseed, nsteps, force_zero_did=False, wrap=False):
         client, conn = cl.make_client(cl.Cfg(rt=50, p2=20, p2s=20), extra=extra())
         frames = []
 
+        late = {'on': False, 'reply': None}
+
         def responder(p):
             frames.append(bytes(p))
             rep = drv.ask('ecu.frame d=%s' % hx(p))
-            return [] if rep == '-' else [(1, bytes.fromhex(rep))]
+            late['reply'] = None if rep == '-' else bytes.fromhex(rep)
+            if rep == '-':
+                return []
+            # a reply that arrives after the request timeout (50 ticks): the caller sees a timeout, the frame stays in the transport's queue
+            return [(120 if late['on'] else 1, bytes.fromhex(rep))]
         conn.responder = responder
         shadow = Shadow()
         mls = []          # MemoryLocation objects kept for reuse
@@ -187,7 +209,7 @@ def run_history(s, ctx, hseed, nsteps, force_zero_did=False, wrap=False):
                     did = rng.choice(list(st['dids']) + [0x4321, 0x1234])
                     kind = st['dids'].get(did, st['default'])
                     ln = (kind[1] if kind and kind[1] is not None else rng.randrange(1, 6))
-                    if rng.random() < 0.1 and not (kind and kind[0] in ('le', 'be')):
+                    if rng.random() < 0.1 and not (kind and (kind[0] in ('le', 'be') or kind[0] in NATIVE)):
                         ln += 1                                   # wrong length: refused locally (an integer value has no length to get wrong)
                     v = bytes(ln) if rng.random() < 0.15 else bytes(rng.randrange(256) for _ in range(ln))
                     op = ('wdbi', did, v)
@@ -369,6 +391,7 @@ def run_history(s, ctx, hseed, nsteps, force_zero_did=False, wrap=False):
                 post = lambda ok, r: None
             # ---- run it on the real client (ECU = impl side) and on the model (ECU = model side)
             nfr = len(frames)
+            late['on'] = rng.random() < 0.04
             how, verdict, flags, payload, exc, r = cl.observe_outer(conn, fn)
             if how == 'ret' and verdict == 'ok':
                 try:
@@ -377,7 +400,8 @@ def run_history(s, ctx, hseed, nsteps, force_zero_did=False, wrap=False):
                     got = 'dump-failed:' + type(ex).__name__
             else:
                 got = verdict.replace('other:', '')
-            full = 'rig.call %s %s' % (cfg_line(st), line)
+            was_late = late['on'] and len(frames) > nfr and late['reply'] is not None
+            full = 'rig.call %s %s%s' % (cfg_line(st), line, ' late=1' if was_late else '')
             want = drv.ask(full)
 
             def norm(o):
@@ -395,7 +419,21 @@ def run_history(s, ctx, hseed, nsteps, force_zero_did=False, wrap=False):
             s.count('%s:%s' % (op[0] if op[0] != 'simple' else 'simple-' + op[1][0], got.split(' ')[0].split(':')[0]))
             if got != want:
                 s.diverge('history %d step %d: %s | %s | before: %s' % (hseed, step, desc, full, ' ; '.join(trail[-8:-1])), want, got)
-            post(got.startswith('ok'), r)
+            if was_late and got == 'timeout' and late['reply'] and late['reply'][0] == frames[-1][0] + 0x40:
+                # the ECU executed the request although the caller saw a timeout: what it stored counts as written
+                if op[0] == 'wdbi':
+                    shadow.dids[op[1]] = frames[-1][3:]
+                elif op[0] == 'wmem':
+                    shadow.write(a, frames[-1][1 + len(late['reply']) - 1:])
+                elif op[0] == 'download':
+                    xfer = {'addr': a, 'total': z, 'sent': 0, 'seq': 1, 'buf': b''}
+                elif op[0] == 'block':
+                    xfer['sent'] += len(blk); xfer['buf'] += blk; xfer['seq'] = (xfer['seq'] + 1) % 256
+                elif op[0] == 'exit' and xfer is not None:
+                    shadow.write(xfer['addr'], xfer['buf']); xfer = None
+                s.count('late-reply:' + op[0])
+            else:
+                post(got.startswith('ok'), r)
         # ---- end of history: both ECU copies and the shadow agree
         ei, em = drv.ask('ecu.dump'), drv.ask('rig.dump')
         s.evaluations += 1
